@@ -42,6 +42,7 @@ const preludeStd = `(declare-fun lower (B) B)
 (declare-fun fpow (F64 F64) F64)
 (declare-fun reMatch (B B) Bool)
 (declare-fun reOk (B) Bool)
+(declare-fun repat (Int) B)
 (assert (forall ((x B)) (! (= (lower (lower x)) (lower x)) :pattern ((lower (lower x))))))
 (assert (forall ((x B)) (! (= (blen (lower x)) (blen x)) :pattern ((lower x)))))
 (assert (forall ((x B)) (! (= (blen (upper x)) (blen x)) :pattern ((upper x)))))
@@ -159,6 +160,18 @@ func (f *frame) stdlib(i *ssa.Call, full string, args []T, st *State, pc string)
 			g.s.assume(and("(>= "+e.S+" 0)", eq(eq(e.S, "0"), ok)))
 			return []T{g.s.def(i.Name(), T{ite(ok, "(parseInt "+v(0)+")", "0"), "Int"}), e}, pc, true
 		}
+	case "regexp.Compile":
+		// T-STD: compiling succeeds exactly for the patterns reOk holds of; the compiled object
+		// remembers its pattern (repat) and matching is a function of pattern and text (reMatch)
+		ok := "(reOk " + v(0) + ")"
+		e := g.s.decl("err", "Int")
+		g.s.assume(and("(>= "+e.S+" 0)", eq(eq(e.S, "0"), ok)))
+		p := g.fresh(st)
+		g.s.assumeUnder(pc, eq("(repat "+p+")", v(0)))
+		return []T{g.s.def(i.Name(), T{ite(ok, p, "0"), "Int"}), e}, pc, true
+	case "(*regexp.Regexp).Match":
+		f.panicOb("nil", pc, not(eq(args[0].S, "0")), i.Pos(), "nil *regexp.Regexp")
+		return []T{{"(reMatch (repat " + args[0].S + ") (val " + args[1].S + "))", "Bool"}}, pc, true
 	case "strconv.ParseFloat":
 		ok := "(parseFloatOk " + v(0) + ")"
 		e := g.s.decl("err", "Int")
